@@ -14,6 +14,8 @@ Shape B.  Families of shards:
 * ``coll``   -- predefined CMap + character collection wiring through a document; odd-length identity strings.
 * ``fb``     -- ToUnicode maps that omit shown codes: fall back to the collection / the embedded TrueType cmap.
 * ``c2g``    -- CIDToGIDMap (name, plain and Flate streams; identity, shifted, permuted) with an embedded TrueType cmap.
+* ``tw``     -- non-zero word spacing (Tw, the aw operand of ") while composite fonts with two-byte codes show strings
+               containing CID 32 / the bytes 0x20: no word spacing is added (it belongs to the single-byte code 32 only).
 * ``tj``     -- every TJ array of <= 4 elements over {two-glyph string, one-glyph string, +250, -500} followed by
                another TJ and a Tj, for vertical and horizontal composite fonts with default and explicit metrics:
                pen displacement (w - Tj/1000) * Tfs along the writing direction, the other coordinate unchanged.
@@ -51,10 +53,12 @@ META = {
         "seg: one case per (CMap, byte string); strings = all over the boundary alphabet up to seg_len; judged on the "
         "CIDs of the maximal prefix made of defined codes (whole string when every byte belongs to a defined code); "
         "non-trivial = at least one CID expected. codec: one case per (CMap, code point); non-trivial = in scope "
-        "(codec form is a single defined code). tou / w / ttf / coll / one (several composite fonts in one document: "
+        "(codec form is a single defined code). tou (spellings include one begincmap..endcmap section per entry) / "
+        "tj / tw, tw1 (word spacing with two-byte codes; with a single-byte code 32) / fb / c2g / w / ttf / coll / one (several composite fonts in one document: "
         "-H and -V font of one collection in every load order, two Type0 fonts sharing one descendant with and "
         "without ToUnicode; each such case runs in its own fresh process): one case per generated document, every glyph's "
-        "text, advance and pen displacement compared; non-trivial = some expected text is not a placeholder or some "
+        "text, advance and pen displacement compared (tou, fb, coll, onebyte, ttf, c2g documents are additionally read "
+        "through the TagExtractor device and its text compared); non-trivial = some expected text is not a placeholder or some "
         "advance differs from the default. states = enumeration-tree nodes (string-tree nodes per CMap, subsets / "
         "sequences of pool entries, code points), transitions = edges, traces = executions compared with the model."
     ),
@@ -69,6 +73,7 @@ META = {
         "vertical glyph boxes are not judged except the horizontal origin shift -vx of explicit W2 entries; "
         "pen displacement and LTChar.adv are",
         "strings longer than the bound, bytes outside the alphabet, W arrays with more items than the bound are not explored",
+        "the tag-output device is compared on the concatenated text of the tou (canonical spelling) / fb / coll / onebyte / ttf / c2g documents only",
         "advances compared with tolerance 1e-9 at font size 8",
     ],
 }
@@ -440,14 +445,53 @@ def compare_doc(pdf: bytes, expected: List[Dict[str, Any]], vertical: bool, sigb
             if vert and e.get("vx") is not None and not R.close(bbox[0], px - e["vx"] * FS / 1000):
                 viol.append(((classify("vx", e, bbox[0]) if classify else None) or f"{sigbase}:vertical-origin-x", i, float(px - e["vx"] * FS / 1000), bbox[0], f"x0 of glyph {i} (position vector vx={e['vx']})"))
             if vert:
-                py += e["adv"]
+                py += e["adv"] + Fraction(e.get("after", 0))
             else:
-                px += e["adv"]
+                px += e["adv"] + Fraction(e.get("after", 0))
     return viol, tuple((x[0], round(x[1], 6)) for pg in pages for x in pg)
+
+
+TAG_KINDS = ("tou", "fb", "coll", "onebyte", "ttf", "c2g")  # documents also read through the TagExtractor device
+
+
+def tag_text(pdf: bytes) -> str:
+    """The text the tag-output device (pdf2txt -t tag) writes for the document, page tags removed."""
+    import io
+    import re
+
+    from pdfminer.pdfdevice import TagExtractor
+    from pdfminer.pdfdocument import PDFDocument
+    from pdfminer.pdfinterp import PDFPageInterpreter, PDFResourceManager
+    from pdfminer.pdfpage import PDFPage
+    from pdfminer.pdfparser import PDFParser
+
+    out = io.BytesIO()
+    rm = PDFResourceManager()
+    dev = TagExtractor(rm, out, codec="utf-8")
+    ip = PDFPageInterpreter(rm, dev)
+    for page in PDFPage.create_pages(PDFDocument(PDFParser(io.BytesIO(pdf)))):
+        ip.process_page(page)
+    return re.sub(r"<page [^>]*>|</page>\n", "", out.getvalue().decode("utf-8"))
+
+
+def compare_tag(pdf: bytes, expected):
+    """The tag device reports, per shown string, the text of every code that has one (codes without are skipped)."""
+    want = "".join(e["text"] for e in expected if not (e["text"].startswith("(cid:") and e["text"].endswith(")")))
+    want = want.replace("&", "&amp;").replace("<", "&lt;").replace(">", "&gt;").replace('"', "&quot;")
+    try:
+        got = tag_text(pdf)
+    except Exception as e:  # noqa
+        return [("C07/tag-output-exception:" + exc_sig(e), -2, want, f"{type(e).__name__}: {e}", "tag-output device raised")]
+    if got != want:
+        return [("C07/tag-output-text", -2, want, got, "text written by the tag-output device (TagExtractor)")]
+    return []
 
 
 def record_doc(st, fam: str, key, pdf: bytes, expected, vertical: bool, sigbase: str, desc: Dict[str, Any], classify=None) -> None:
     viol, outcome = compare_doc(pdf, expected, vertical, sigbase, classify)
+    if fam in TAG_KINDS and not (viol and viol[0][1] == -1) and (fam != "tou" or key[1] == "canonical"):
+        viol = viol + compare_tag(pdf, expected)
+        st.add("documents_also_read_through_tag_device", 1)
     st.traces += 1
     nt = any(not e["text"].startswith("(cid:") for e in expected) or any(e["adv"] != FS for e in expected)
     st.case((fam, key), nontrivial=nt, outcome=outcome)
@@ -456,7 +500,7 @@ def record_doc(st, fam: str, key, pdf: bytes, expected, vertical: bool, sigbase:
             st.viol_counts[sig] += 1  # counted, not stored
             continue
         st.violation(sig, {"family": "doc", "sub": fam, "desc": desc, "pdf": pdf, "vertical": vertical, "sigbase": sigbase, "index": i,
-                           "expected": [[e["text"], e["adv"], e.get("vx"), e.get("tag", ""), e.get("wtag", ""), e.get("note", ""), e.get("vert"), e.get("page", 0), e.get("shift", 0)] for e in expected]}, exp, ob, what)
+                           "expected": [[e["text"], e["adv"], e.get("vx"), e.get("tag", ""), e.get("wtag", ""), e.get("note", ""), e.get("vert"), e.get("page", 0), e.get("shift", 0), e.get("after", 0)] for e in expected]}, exp, ob, what)
 
 
 # ------------------------------------------------------------------ tou family
@@ -481,7 +525,7 @@ TOU_POOL = [
     ("range", b"\x05\xff", b"\x06\x00", "ヿ"),  # target carries across a byte (30FF -> 3100)
     ("char", b"\x00\x20", " "),
 ]
-TOU_SPELLINGS = ["canonical", "comments", "no-begincmap", "one-block-per-kind", "lowercase-hex"]
+TOU_SPELLINGS = ["canonical", "comments", "no-begincmap", "one-block-per-kind", "lowercase-hex", "section-per-entry"]
 TOU_ENCODINGS = [("Identity-H", "name"), ("Identity-V", "name"), ("DLIdent-H", "name"), ("Identity-H", "stream"), ("DLIdent-V", "name"), ("Identity-V", "stream")]
 
 
@@ -505,6 +549,9 @@ def tou_model(entries) -> Dict[bytes, str]:
 
 
 def tou_stream(entries, spelling: str, codespace=((b"\x00\x00", b"\xff\xff"),)) -> bytes:
+    if spelling == "section-per-entry":
+        # several complete begincmap .. endcmap sections in one stream (a map with supplements appended)
+        return b"".join(tou_stream([e], "canonical", codespace) for e in entries) if entries else tou_stream([], "canonical", codespace)
     lower = spelling == "lowercase-hex"
     cm = spelling == "comments"
     out = bytearray()
@@ -1325,6 +1372,115 @@ def make_classify_c2g(mapkind):
     return classify
 
 
+# ------------------------------------------------------------------ word spacing with composite fonts
+# ISO 32000-1 9.3.3: word spacing applies to every occurrence of the single-byte character code 32 in a string of a
+# simple font or of a composite font that defines code 32 as a single-byte code; it does not apply to the byte value
+# 32 inside multi-byte codes -- hence not to <0020> under Identity-H/V or a UTF-16 CMap, whatever CID that selects.
+TW_FONTS = ["Identity-H", "Identity-V", "DLIdent-H", "UniJIS-UTF16-H", "UniJIS-UTF16-V", "UniGB-UCS2-H"]
+TW_OPS = ["Tj", "TJ", "dquote", "TJ-split"]
+TW_VALUES = [4, -2]
+
+
+def tw_cases():
+    for f in range(len(TW_FONTS)):
+        for op in TW_OPS:
+            for tw in TW_VALUES:
+                yield ("tw", f, op, tw)
+
+
+def build_tw(fi: int, op: str, tw: int):
+    enc = TW_FONTS[fi]
+    vertical = is_vertical_name(enc)
+    if enc in IDENTITY2:
+        seq = [31, 32, 33, 32, 32, 8224]  # 8224 = 0x2020: both bytes are 32
+        codes = {c: c.to_bytes(2, "big") for c in seq}
+        cid = {c: c for c in seq}
+        ros, sub = ("Adobe", "Identity", 0), "CIDFontType2"
+        text = {c: "(cid:%d)" % c for c in seq}
+    else:
+        chars = ["A", " ", "B", " ", " ", "†"]  # U+2020 dagger: both bytes 0x20 in UTF-16BE
+        flat, _ = flat_codes(enc)
+        seq = [ch for ch in chars if ch.encode("utf-16-be") in flat]
+        codes = {ch: ch.encode("utf-16-be") for ch in seq}
+        cid = {ch: flat[codes[ch]] for ch in seq}
+        coll = "Adobe-Japan1" if "JIS" in enc else "Adobe-GB1"
+        um = load_pickle("to-unicode-" + coll)["CID2UNICHR_V" if vertical else "CID2UNICHR_H"]
+        text = {ch: um.get(cid[ch], "(cid:%d)" % cid[ch]) for ch in seq}
+        ros, sub = (coll.split("-")[0], coll.split("-")[1], 2), "CIDFontType0"
+    adv = Fraction(-FS if vertical else FS)
+    s1, s2 = seq[:3], seq[3:]
+    b1 = b"".join(codes[c] for c in s1)
+    b2 = b"".join(codes[c] for c in s2)
+    if op == "Tj":
+        ops = b"%d Tw " % tw + ser(HexStr(b1)) + b" Tj " + ser(HexStr(b2)) + b" Tj"
+    elif op == "TJ":
+        ops = b"%d Tw [" % tw + ser(HexStr(b1)) + b" " + ser(HexStr(b2)) + b"] TJ"
+    elif op == "TJ-split":
+        ops = b"%d Tw [" % tw + b" ".join(ser(HexStr(codes[c])) for c in s1 + s2) + b"] TJ"
+    else:
+        ops = b"0 TL %d 0 " % tw + ser(HexStr(b1)) + b' " ' + ser(HexStr(b2)) + b" Tj"
+    exp = [{"text": text[c], "adv": adv, "vert": vertical, "after": 0, "tag": "collection" if ros[1] != "Identity" else "none", "wtag": "Tw",
+            "note": f"cid {cid[c]} code {codes[c].hex()} with Tw={tw}: no single-byte code 32"} for c in s1 + s2]
+    pdf = type0_doc(enc, [], ros=ros, sub=sub, show_ops=ops)
+    return pdf, exp, vertical
+
+
+# composite fonts whose CMap defines 32 as a single-byte code: word spacing does apply after that code
+TW1_FONTS = [("OneByteIdentityH", None), ("OneByteIdentityV", None), ("90ms-RKSJ-H", "cp932"), ("90ms-RKSJ-V", "cp932"), ("GBK-EUC-H", "gbk"), ("KSCms-UHC-H", "cp949")]
+
+
+def tw1_cases():
+    for f in range(len(TW1_FONTS)):
+        for op in TW_OPS:
+            for tw in TW_VALUES:
+                yield ("tw1", f, op, tw)
+
+
+def build_tw1(fi: int, op: str, tw: int):
+    enc, codec = TW1_FONTS[fi]
+    vertical = is_vertical_name(enc)
+    if codec is None:
+        seq = [b"\x41", b"\x20", b"\x42", b"\x20", b"\x20", b"\x43"]
+        cid = {c: c[0] for c in seq}
+        text = {c: "(cid:%d)" % c[0] for c in seq}
+        ros, sub = ("Adobe", "Identity", 0), "CIDFontType2"
+    else:
+        two = {"cp932": "亜", "gbk": "啊", "cp949": "가"}[codec].encode(codec)
+        seq = [b"\x41", b"\x20", two, b"\x20", b"\x20", b"\x42"]
+        cid = {c: ref_decode(enc, c)[0][0] for c in seq}
+        coll = {"cp932": "Adobe-Japan1", "gbk": "Adobe-GB1", "cp949": "Adobe-Korea1"}[codec]
+        um = load_pickle("to-unicode-" + coll)["CID2UNICHR_V" if vertical else "CID2UNICHR_H"]
+        text = {c: um.get(cid[c], "(cid:%d)" % cid[c]) for c in seq}
+        ros, sub = (coll.split("-")[0], coll.split("-")[1], 2), "CIDFontType0"
+    adv = Fraction(-FS if vertical else FS)
+    s1, s2 = seq[:3], seq[3:]
+    b1, b2 = b"".join(s1), b"".join(s2)
+    if op == "Tj":
+        ops = b"%d Tw " % tw + ser(HexStr(b1)) + b" Tj " + ser(HexStr(b2)) + b" Tj"
+    elif op == "TJ":
+        ops = b"%d Tw [" % tw + ser(HexStr(b1)) + b" " + ser(HexStr(b2)) + b"] TJ"
+    elif op == "TJ-split":
+        ops = b"%d Tw [" % tw + b" ".join(ser(HexStr(c)) for c in s1 + s2) + b"] TJ"
+    else:
+        ops = b"0 TL %d 0 " % tw + ser(HexStr(b1)) + b' " ' + ser(HexStr(b2)) + b" Tj"
+    exp = [{"text": text[c], "adv": adv, "vert": vertical, "after": tw if c == b"\x20" else 0, "tag": "collection" if codec else "none", "wtag": "Tw",
+            "note": f"cid {cid[c]} code {c.hex()} with Tw={tw}"} for c in s1 + s2]
+    pdf = type0_doc(enc, [], ros=ros, sub=sub, show_ops=ops)
+    return pdf, exp, vertical
+
+
+def classify_tw1(kind, e, got):
+    if kind == "pen":
+        return "C07/word-spacing-not-applied-to-single-byte-code-32-of-composite-font"
+    return None
+
+
+def classify_tw(kind, e, got):
+    if kind == "pen":
+        return "C07/word-spacing-applied-to-multibyte-code"
+    return None
+
+
 def odd_cases():
     for enc in ("Identity-H", "Identity-V", "DLIdent-H"):
         for s in (b"\x00\x41\x00", b"\x00", b"\x00\x41\x00\x42\x43"):
@@ -1363,6 +1519,12 @@ def doc_case(c):
     if kind == "coll":
         pdf, exp, v = build_coll(c[1], c[2], c[3])
         return pdf, exp, v, "C07/collection", {"cmap": c[1], "codec": c[2], "collection": c[3]}, None
+    if kind == "tw":
+        pdf, exp, v = build_tw(c[1], c[2], c[3])
+        return pdf, exp, v, "C07/word-spacing", {"encoding": TW_FONTS[c[1]], "operator": c[2], "Tw": c[3]}, classify_tw
+    if kind == "tw1":
+        pdf, exp, v = build_tw1(c[1], c[2], c[3])
+        return pdf, exp, v, "C07/word-spacing", {"encoding": TW1_FONTS[c[1]][0], "operator": c[2], "Tw": c[3]}, classify_tw1
     if kind == "fb":
         pdf, exp, v = build_fb(c[1], c[2], c[3])
         return pdf, exp, v, "C07/tounicode-fallback", {"font": c[1], "covered": c[2], "spelling": c[3]}, classify_fb
@@ -1398,6 +1560,8 @@ def all_doc_cases(tier: str) -> List[tuple]:
     out += list(odd_cases())
     out += list(onebyte_cases())
     out += list(tj_cases(tier))
+    out += list(tw_cases())
+    out += list(tw1_cases())
     out += list(fb_cases())
     out += list(c2g_cases())
     return out
@@ -1529,6 +1693,8 @@ def replay(case):
                 ent["page"] = row[7]
             if len(row) > 8 and row[8]:
                 ent["shift"] = row[8]
+            if len(row) > 9 and row[9]:
+                ent["after"] = row[9]
             exp.append(ent)
         d = case["desc"]
         classify = None
@@ -1538,6 +1704,10 @@ def replay(case):
             classify = make_classify_ttf(tuple(d["segments"]), d["layout"])
         elif d["kind"] == "v":
             classify = make_classify_w2(tuple(d["items"]))
+        elif d["kind"] == "tw":
+            classify = classify_tw
+        elif d["kind"] == "tw1":
+            classify = classify_tw1
         elif d["kind"] == "fb":
             classify = classify_fb
         elif d["kind"] == "c2g":
@@ -1547,6 +1717,8 @@ def replay(case):
         elif d["kind"] == "shared":
             classify = classify_shared
         viol, _ = compare_doc(case["pdf"], exp, case["vertical"], case["sigbase"], classify)
+        if case["index"] == -2:
+            viol = compare_tag(case["pdf"], exp)
         for sig, i, e, g, what in viol:
             if i == case["index"]:
                 out.append({"signature": sig, "expected": repr(e), "observed": repr(g)})
